@@ -44,7 +44,7 @@ def c05(tier, seed):
     return check('C05', tier, seed, runs, keyfilter=pref('c05:'), assumptions=ASSUME_COMMON)
 
 def c06(tier, seed):
-    return check('C06', tier, seed, [Run('e2_storage', 'asan', [])], keyfilter=pref('c06:'), assumptions=ASSUME_COMMON + [
+    return check('C06', tier, seed, [Run('e2_storage', 'asan', []), Run('e2_storage', 'dbg', [], label='e2_storage[dbg] (library assertions on)')], keyfilter=pref('c06:'), assumptions=ASSUME_COMMON + [
         '2^256 buffers are explored field-wise around valid images: every byte x 256 values, the two header bytes (65536) with stale and with recomputed check values, footer variants, secret top bits x all check values, all 2-bit (and, thorough, 3-bit) flips'])
 
 def c07(tier, seed):
@@ -201,12 +201,12 @@ def c16(tier, seed):
     runs.append(Run('e2_long', 'asan', []))              # ... and when hundreds of seeds are alive or tens of thousands of calls have been made
     def cov(results):
         return {'builds': modes, 'cells_reached_per_build': {res['_label']: res.get('cells_reached') for r, res in results if r.prog == 'e4_residue'},
-                'bytes_scanned': sum(res.get('bytes_scanned', 0) for r, res in results), 'cells_expected': 87}
+                'bytes_scanned': sum(res.get('bytes_scanned', 0) for r, res in results), 'cells_expected': 101}
     def post(results):
         out = []
         for r, res in results:
-            if r.prog == 'e4_residue' and res.get('cells_reached') is not None and res.get('cells_reached') != 87:
-                out.append({'key': 'harness:e4-cells:%s' % r.mode, 'replay': '', 'msg': '%s reached %s of 87 (function, exit) cells' % (res['_label'], res.get('cells_reached'))})
+            if r.prog == 'e4_residue' and res.get('cells_reached') is not None and res.get('cells_reached') != 101:
+                out.append({'key': 'harness:e4-cells:%s' % r.mode, 'replay': '', 'msg': '%s reached %s of 101 (function, exit) cells' % (res['_label'], res.get('cells_reached'))})
         return out
     return check('C16', tier, seed, runs, keyfilter=pref('c16:', 'harness:'), extra_cov=cov, post=post, assumptions=ASSUME_COMMON + [
         'what a given compiler leaves behind: the build matrix is the claim (quick: gcc -O2, -O0; thorough: gcc -O0..-Os, clang -O0/-O2/-O3), x86-64',
@@ -214,7 +214,7 @@ def c16(tier, seed):
         'single word indices (11 bits) are not searched, only adjacent pairs; secrets are searched as 8-byte windows'])
 
 def c20(tier, seed):
-    runs = [Run('e3_sched', 'tsanrt', ['only', str(h)], label='e3_sched[tsanrt] H%d' % h) for h in ((5, 3, 4, 2, 1, 6, 7, 8, 9) if tier == 'thorough' else (3, 4, 2, 1, 6, 7, 8, 9))]
+    runs = [Run('e3_sched', 'tsanrt', ['only', str(h)], label='e3_sched[tsanrt] H%d' % h) for h in ((5, 3, 4, 2, 1, 6, 7, 8, 9, 10) if tier == 'thorough' else (3, 4, 2, 1, 6, 7, 8, 9, 10))]
     runs.append(Run('e3_free', 'tsan', [], label='e3_free[tsan] free-running ThreadSanitizer pass'))
     def cov(results):
         c = {'e3': {}}
@@ -249,7 +249,7 @@ def c20(tier, seed):
         return pref('c20:', 'harness:')(k)
     return check('C20', tier, seed, runs, keyfilter=kf, extra_cov=cov, post=post, parallel=True, assumptions=ASSUME_COMMON + [
         'sequentially consistent interleavings at the granularity of individual accesses to the library writable static data (sections ps_data/ps_bss); for race-free code that is all there is, and race freedom itself is decided by the exact race oracle',
-        'harnesses H1-H9: 2 threads x 3-6 calls, 3 threads x 2-3 calls, on distinct seeds with colliding language/coin, refused (feature not enabled) inputs next to accepted ones, libc allocator, a shared pool allocator that recycles released blocks across threads, ambiguous phrases decoded automatically and then explicitly; injection and feature configuration happen before the threads start (the property promises nothing for concurrent polyseed_inject / polyseed_enable_features)',
+        'harnesses H1-H10: 2 threads x 3-6 calls, 3 threads x 2-3 calls, on distinct seeds with colliding language/coin, refused (feature not enabled) inputs next to accepted ones, libc allocator, a shared pool allocator that recycles released blocks across threads, ambiguous phrases decoded automatically and then explicitly, twin threads that are given identical random blocks and clock readings; injection and feature configuration happen before the threads start (the property promises nothing for concurrent polyseed_inject / polyseed_enable_features)',
         'C11 atomic operations of the library are intercepted too: each is a scheduling point and a happens-before edge (acquire+release, sequentially consistent; weaker memory orders are not modelled); the race oracle is a vector-clock happens-before detector, which without atomics in the library degenerates to: any byte written by one thread and touched by another; a thread that repeats an atomic operation without effect is a spinner and yields, all threads spinning = no-progress violation',
         'when a harness is too large at access granularity (a change added shared mutable data), it is explored completely at synchronisation granularity (atomic operations and thread ends only; sufficient for race-free code, and the race detector runs on every execution) and then at access granularity with preemption bounds 0,1,2',
         'language tables are pure read-only data and are not instrumented; libc helpers are covered by the separate free-running ThreadSanitizer pass'])
@@ -296,7 +296,7 @@ META = {
    text='All interleavings of seven (thorough: eight) multi-threaded harnesses (refused-feature inputs next to valid ones; a pool allocator that recycles released blocks across threads; libc allocator; create/encode/decode/free; load/crypt/keygen/encode/decode_explicit/free; 3 threads with colliding language and coin; Chinese auto-detection + non-ASCII crypt against Korean create/encode/decode; thorough: 3 threads x full create/encode/decode/free cycles, 114 305 states) at the granularity of single accesses to the library writable static data are executed on the real library (2 555 + 4 164 + 30 688 + 3 114 states on the unchanged tree, each complete without a preemption bound). Every execution is checked for a write/any-access pair by different threads on a shared byte, for accesses to another thread seed memory, and for per-thread transcripts equal to a serial run. A free-running pass of the same bodies under real ThreadSanitizer keeps uninstrumented libc helpers visible.',
    note='Trusted: ' + TB + ', gcc -fsanitize=thread instrumentation, pthreads/semaphores. Sequential consistency; 2-3 threads; a state cap switches to iterative preemption bounding and is reported.'),
  'C16': dict(engine='E4', design_ref='DESIGN.md section 5 C16', technique='enumeration of every API function x exit path x compiler build on a painted stack with full residue scan; wipe-before-free checked on every free of the E1 state space',
-   text='Each of 87 (function, exit) cells (four of them with the caller buffers at odd addresses; decoders in English, Spanish, Korean and Chinese) - create OK/unsupported/memory, load OK/memory/5 format causes/checksum/unsupported, both decoders x OK/word count/language/checksum/memory/unsupported x 3 languages, multiple languages, encode in composing and plain languages, crypt with ASCII and non-ASCII password, keygen, store, getters, free - is executed on a dedicated 256 KiB stack painted 0xA5; afterwards the complete dead stack and the library writable sections are searched for the secret bytes, the encrypted secret, the mask, the password (raw, NFKD), every phrase word and adjacent word-index pairs (u16/u32/u64). At every free the block must be zero and covered by an earlier injected memzero. Repeated for each compiler build.',
+   text='Each of 101 (function, exit) cells (four of them with the caller buffers at odd addresses; fourteen on seed objects with another history - after one and after two password operations, out of a decoder, loaded; decoders in English, Spanish, Korean and Chinese) - create OK/unsupported/memory, load OK/memory/5 format causes/checksum/unsupported, both decoders x OK/word count/language/checksum/memory/unsupported x 3 languages, multiple languages, encode in composing and plain languages, crypt with ASCII and non-ASCII password, keygen, store, getters, free - is executed on a dedicated 256 KiB stack painted 0xA5; afterwards the complete dead stack and the library writable sections are searched for the secret bytes, the encrypted secret, the mask, the password (raw, NFKD), every phrase word and adjacent word-index pairs (u16/u32/u64). At every free the block must be zero and covered by an earlier injected memzero. Repeated for each compiler build.',
    note='Trusted: ' + TB + ', makecontext. Sees what these compilers leave behind on x86-64.'),
  'C19': dict(engine='E5', design_ref='DESIGN.md section 5 C19', technique='configuration enumeration (both char signednesses) x the exhaustive E1/E2 scripts, transcript comparison',
    text='The phrase sweeps (all ten languages), the prefix/accent variants, the detection strings, the small-scope strings, the word-list sweep, the password masks and the E1 crypt profile are executed against two builds of the library (-fsigned-char, -funsigned-char). Each build must pass the oracles of those scripts, and the per-part transcripts (digest of every status and output, counts, outcome classes, E1 state/transition counts) must be equal; a violation inside one build carries the replayable case.',
